@@ -424,9 +424,16 @@ func genGating(ctx *Ctx, emit func(Case)) {
 
 func genFresh(ctx *Ctx, emit func(Case)) {
 	r := ctx.R.Fork()
+	failTurn := 0
 	failClosed := func(stream, line string, fault int) {
+		// every other faulting request: the source's error is io.EOF (an exhausted source) instead of a generic error
+		if failTurn++; failTurn%2 == 0 {
+			line += " re=eof"
+		}
 		out := goExec(line)
 		emit(Case{Stream: stream, Line: line, GoOut: out, Branch: fmt.Sprintf("fault@%d/%s", fault, strings.Fields(out)[0]),
+			// WHICH error value comes back (the source's own io.EOF / io.ErrUnexpectedEOF or the library's) is not compared
+			Cmp: func(a, b string) bool { return a == b || (strings.HasPrefix(a, "err") && strings.HasPrefix(b, "err")) },
 			Sample: map[string]interface{}{"op": strings.Fields(line)[0], "fault_at_read": fault, "outcome": strings.Fields(out)[0]},
 			Direct: func() string {
 				if !strings.HasPrefix(out, "err") {
